@@ -5,11 +5,12 @@ LEVEL = "other"
 TRUSTED = ["declarative validity predicate of the bounded part is written from the class docstrings"]
 ASSUMPTIONS = ["guard position is checked syntactically (top level of __init__, before super().__init__)"]
 EXPLANATION = ("Proved (PyVC, unbounded in k): the real guard statement on k of each of the 8 k-models raises ValueError exactly for k <= 0 (and for non-integers), and precedes the construction of the solver; "
-               "the flow-value validator rejects exactly missing / negative values on non-ignored edges. Bounded: every class x valid bases x every single corruption of a catalogue (rc/p_C19.py).")
+               "the flow-value validator rejects exactly missing / negative values on non-ignored edges; the conservation gate check_flow_conservation answers True exactly for exactly balanced interior nodes (no tolerance). Bounded: every class x valid bases x every single corruption of a catalogue (rc/p_C19.py).")
 
 
 def units(tier):
-    return c19.all_units()
+    from contracts import c02
+    return c19.all_units() + [c02.u_check_flow_conservation()]
 
 
 def bounded(tier, seed):
